@@ -111,7 +111,7 @@ structure Entry where
   targets : List Target := [.self]
   relay : Relay := .none
   effs : List Eff := []
-deriving Repr
+deriving Repr, DecidableEq
 
 def setter (k : Kind) (attr : String) : Entry :=
   { kind := k, name := attr ++ "=", methods := [attr ++ "="], guarded := true }
